@@ -1,13 +1,18 @@
 ----------------------------- MODULE Gen_Plan -----------------------------
 (* Enumerates an input domain of Planner.tla and writes it as ndjson.      *)
 EXTENDS Planner, Json, IOUtils, TLC
-CONSTANTS Fn, NMax, SMax, Pad
+CONSTANTS Fn, NMax, SMax, Pad, Preset
 VARIABLE done
 Dom == CASE Fn = "normalize_slice" -> DomNormalize(NMax, SMax, Pad)
          [] Fn = "posify_index"    -> DomPosify(NMax)
          [] Fn = "slice_plan"      -> DomBlockPlan(NMax, SMax, Pad)
          [] Fn = "fuse_slice"      -> DomFuse(NMax, SMax, Pad)
          [] Fn = "compose_slices"  -> DomCompose(NMax, Pad)
+         [] Fn = "plan_rechunk"    -> DomRechunk(Preset)
+         [] Fn = "merge_to_number" -> DomMerge(NMax)
+         [] Fn = "normalize_chunks" -> DomNormChunks(Preset)
+         [] Fn = "unify_chunks"    -> DomUnify(Preset)
+         [] Fn = "moved_fraction"  -> DomMoved(NMax)
          \* spec self-test: the spec's own slice semantics, to be compared with CPython
          [] Fn = "sel_oracle"      -> {<<t[1], t[2], t[3], t[4], Sel(SliceIx(t[2], t[3], t[4]), t[1])>> : t \in DomNormalize(NMax, SMax, Pad)}
 Init == done = FALSE
